@@ -375,6 +375,24 @@ def run_shard(ctx):
         if o.ok:
             ctx.viol("accepted-but-must-reject:saveto-without-entities-sheet:audit-row", "save_to on the audit row without an entities sheet was converted "
                      f"(entities:saveto in output: {'entities:saveto' in o.xform})", common.witness(f6))
+    # save_to on the begin row of every kind of section, in every spelling of the type cell: a section holds no value, the form is refused
+    for bt, et in (("begin group", "end group"), ("begin_group", "end_group"), ("begin repeat", "end repeat"), ("Begin Group", "End Group"), ("begin  group", "end group"),
+                   ("begin loop over lp9", "end loop"), ("begin_loop over lp9", "end_loop"), ("begin loop  over lp9", "end loop")):
+        n += 1
+        if not ctx.mine(n):
+            continue
+        f8 = gen.simple_form([("text", "q1", {"label": "Q", "save_to": "p0"}), (bt, "sec", {"label": "S", "save_to": "p_sec"}, [("text", "inq", {"label": "I"})])],
+                             choices={"lp9": [{"name": "a", "label": "A"}, {"name": "b", "label": "B"}]})
+        f8.survey[1].meta["end_type"] = et
+        f8.entities = {"list_name": "trees", "label": "concat('L', 'x')"}
+        o = drive.convert_form(f8)
+        ctx.ctr("rejections_judged")
+        ctx.case(sig=f"saveto-on-section-row|{bt}")
+        if o.ok:
+            ctx.viol(f"accepted-but-must-reject:saveto-on-section-row:{bt.split()[0].lower().replace('_', ' ').split()[0]}-{'loop' if 'loop' in bt else ('repeat' if 'repeat' in bt else 'group')}",
+                     f"save_to on a {bt!r} row was converted (entities:saveto on the section's bind: {'saveto=\"p_sec\"' in o.xform})", common.witness(f8))
+        elif not o.exc_is_pyxform:
+            ctx.viol("crash:saveto-on-section-row", f"{bt!r}: {o.brief()}", common.witness(f8))
     # selects whose LIST is called like a container: they are questions, save_to is legal on them
     for ln in ("group_list", "my_repeat_codes", "loop1", "begin", "groups"):
         n += 1
